@@ -158,6 +158,8 @@ def mul(a, b):
         return neg(b)
     if b.op == 'c' and b.args[0] == -1:
         return neg(a)
+    if a is b:
+        return power(a, 2)
     return mk('*', a, b)
 
 
